@@ -22,6 +22,10 @@ Oracle clauses (violation key = C01:<clause>:...):
                 encoded (module logger installed), or its clone is wrong / not independent
   reused        an object that was encoded before and then unpack()s other bytes / has its public
                 fields assigned does not end up == a fresh object, or encodes stale bytes
+  dispatch      the decoder reached through a dispatch table / a real receive loop is not the decoder
+                of that type: a registered type code without a slot in make_type_to_unpacker_table()
+                or of_01.unpackers, or a message that a real of_01.Connection.read() (controller
+                side) / switch OFConnection.read() does not hand to its handler
   edited        encode -> same-length in-place edit of a list member -> encode is not the encoding
                 of the edited value (stale cache)
   wire          a legal encoding produced by the reference encoder (e.g. NXM entry with an explicit
@@ -63,6 +67,7 @@ def pox ():
   P.of, P.nx, P.ofutil = of, nx, ofutil
   P.EthAddr, P.IPAddr, P.IPAddr6 = addr.EthAddr, addr.IPAddr, addr.IPAddr6
   P.unpackers = ofutil.make_type_to_unpacker_table()
+  P.paths = None
   # libopenflow's module logger as of_01.launch() installs it (only switched on for the
   # "used object" phase; logging itself stays disabled, the code path behind it does not)
   P.logger = logging.getLogger("c01.libopenflow")
@@ -304,17 +309,103 @@ def _one (xs):
   return xs[0]
 
 
+class DispatchFailure (Exception):
+  """A real receive path did not hand the message to its handler."""
+
+def real_paths (P):
+  """One real of_01.Connection (controller side) and one real switch-side OFConnection per
+  process, each with a recording handler: bytes in -> the object the handler was given."""
+  if getattr(P, 'paths', None) is not None: return P.paths
+  import mc.env as env
+  buf = io.StringIO()
+  with contextlib.redirect_stdout(buf), contextlib.redirect_stderr(buf):
+    cs = env.ControllerStack()
+    con = cs.cons[cs.connect()]
+    got = []
+    con.handlers = [lambda c, m: got.append(m)] * 256
+    import pox.datapaths.switch as sw
+    from pox.lib.ioworker import RecocoIOWorker
+    worker = RecocoIOWorker(env.FakeSock())
+    worker.pinger = env.FakePinger()
+    worker.on_close = lambda w: None
+    sc = sw.OFConnection(worker)
+    sgot = []
+    sc.set_message_handler(lambda c, m: sgot.append(m))
+  def controller (raw, off):
+    del got[:]
+    con.buf = b''; con.sock.rx[:] = [bytes(raw)]; con.sock.tx = b''
+    try:
+      guard = 0
+      while con.sock.rx:
+        guard += 1
+        if con.read() is False or guard > 100:
+          raise DispatchFailure("Connection.read() gave the connection up (returned False)")
+      if len(got) != 1:
+        raise DispatchFailure("the message handler was invoked %d times; %d bytes left in the receive buffer" % (len(got), len(con.buf)))
+      if con.buf:
+        raise DispatchFailure("%d bytes left in the receive buffer" % len(con.buf))
+      return len(raw), got[0]
+    finally:
+      con.buf = b''; del con.sock.rx[:]
+  def switch (raw, off):
+    del sgot[:]
+    worker.receive_buf = b''; worker.send_buf = b''
+    try:
+      worker._push_receive_data(bytes(raw))
+      if len(sgot) != 1:
+        reply = worker.send_buf
+        what = ""
+        if len(reply) >= 12 and reply[1] == 1:
+          what = "; the switch answered with OFPT_ERROR type %d code %d" % struct.unpack('!HH', reply[8:12])
+        raise DispatchFailure("the message handler was invoked %d times%s" % (len(sgot), what))
+      if worker.receive_buf:
+        raise DispatchFailure("%d bytes left in the receive buffer" % len(worker.receive_buf))
+      return len(raw), sgot[0]
+    finally:
+      worker.receive_buf = b''; worker.send_buf = b''
+  P.paths = (controller, switch)
+  return P.paths
+
+
+def table_cases (P):
+  """The decoder reached through a dispatch table is the decoder of that type: every type code
+  of the registry, in a freshly built table, in of_01's table and in a switch connection's."""
+  import pox.openflow.of_01 as of01
+  out = []
+  tables = [('pox.openflow.util.make_type_to_unpacker_table()', P.ofutil.make_type_to_unpacker_table()),
+            ('pox.openflow.of_01.unpackers', of01.unpackers)]
+  for t, c in sorted(P.of._message_type_to_class.items()):
+    for tname, tab in tables:
+      e = tab[t] if 0 <= t < len(tab) else None
+      if e is None:
+        out.append(("dispatch:%s:no-decoder" % c.__name__, "%s has no decoder for type %d (%s); the table has %d slots"
+                    % (tname, t, c.__name__, len(tab))))
+      elif getattr(e, '__self__', c) is not c and tname.endswith('()'):
+        out.append(("dispatch:%s:wrong-decoder" % c.__name__, "%s[%d] decodes with %s, the registry says %s"
+                    % (tname, t, getattr(e.__self__, '__name__', e.__self__), c.__name__)))
+  return out
+
+
 def decoders (P, K, n):
-  """[(label, fn(raw, off) -> (new offset, object), strict)]"""
+  """[(label, fn(raw, off) -> (new offset, object), strict[, 'stream'])]"""
   of, nx = P.of, P.nx
   cls = K.cls(P)
   cat = K.cat
   if cat == 'wire': cat = K.opts['carrier']
+  if cat in ('msg', 'msg1', 'nxmsg'):
+    def table (raw, off):
+      t, tab = raw[off + 1], P.unpackers       # built by pox.openflow.util.make_type_to_unpacker_table()
+      e = tab[t] if t < len(tab) else None
+      if e is None:
+        raise DispatchFailure("make_type_to_unpacker_table() has no decoder for type %d (%d slots)" % (t, len(tab)))
+      return e(raw, off)
+    controller, switch = real_paths(P)
+    real = [('of_01.Connection.read', controller, cat == 'msg', 'stream'),
+            ('switch.OFConnection.read', switch, cat == 'msg', 'stream')]
   if cat == 'msg':
-    return [('unpack_new', cls.unpack_new, True),
-            ('dispatch', lambda raw, off: P.unpackers[raw[off + 1]](raw, off), True)]
+    return [('unpack_new', cls.unpack_new, True), ('dispatch', table, True)] + real
   if cat == 'msg1':
-    return [('unpack_new', cls.unpack_new, True)]
+    return [('unpack_new', cls.unpack_new, True), ('dispatch', table, False)] + real
   if cat == 'action':
     def lst (raw, off):
       o, xs = of._unpack_actions(raw, n, off); return o, _one(xs)
@@ -339,7 +430,7 @@ def decoders (P, K, n):
     return [('unpack_new', cls.unpack_new, True), ('_unpack_actions(generic)', gl, False)]
   if cat == 'nxmsg':
     out = [('unpack_new', cls.unpack_new, True),
-           ('ofp_vendor_generic', of.ofp_vendor_generic.unpack_new, False)]
+           ('ofp_vendor_generic', of.ofp_vendor_generic.unpack_new, False), ('dispatch', table, False)] + real
     if K.opts.get('nx_dispatch'):
       def nd (raw, off):
         nx._old_unpacker = of.ofp_vendor_generic.unpack_new
@@ -373,11 +464,16 @@ def run_wire (P, K, v):
   raw = S.join(pieces)
   V.raw = raw
   n = len(raw)
-  for label, fn, strict in decoders(P, K, n):
-    for data, off in ((raw, 0), (PRE + raw + POST, len(PRE))):
+  for ent in decoders(P, K, n):
+    label, fn, strict = ent[:3]
+    stream = len(ent) > 3
+    if stream and raw[0] != S.OFP_VERSION: continue
+    for data, off in (((raw, 0),) if stream else ((raw, 0), (PRE + raw + POST, len(PRE)))):
       emb = " (embedded at offset %d with trailing bytes)" % off if off else ""
       try:
         V.calls += 1; off2, o = fn(data, off)
+      except DispatchFailure as e:
+        V.fail("dispatch:%s:%s" % (own, label), "%s: %s: %s" % (K.name, label, e)); return V
       except Exception as e:
         raised("decoding a wire-origin encoding via %s%s" % (label, emb), e); return V
       if off2 != off + n:
@@ -472,12 +568,17 @@ def run_case (P, K, v, state=True):
     # a clause that already failed through an earlier entry point is the same defect
     if clause in seen: return
     seen.add(clause); V.fail(suffix, text)
-  for label, fn, strict in decoders(P, K, n):
+  for ent in decoders(P, K, n):
+    label, fn, strict = ent[:3]
+    stream = len(ent) > 3
+    if stream and b[0] != S.OFP_VERSION: continue      # both receive loops refuse other versions by design
     strict_eq = strict and flags.get('eq', True) and K.opts.get('eq', True)
-    for raw, off in ((b, 0), (PRE + b + POST, len(PRE))):
+    for raw, off in (((b, 0),) if stream else ((b, 0), (PRE + b + POST, len(PRE)))):
       emb = " (embedded at offset %d with trailing bytes)" % off if off else ""
       try:
         V.calls += 1; off2, o2 = fn(raw, off)
+      except DispatchFailure as e:
+        dfail("dispatch", "dispatch:%s:%s" % (own, label), "%s: %s: %s" % (K.name, label, e)); break
       except Exception as e:
         raised("decode via %s%s" % (label, emb), e); break
       if off2 != off + n:
@@ -1947,6 +2048,11 @@ def run (cfg):
         if cand < c[0]:
           c[0] = cand; c[1]['replay'] = x['replay']; c[1]['what'] = x['what']
   rep.violations = dict((k, c[1]) for k, c in best.items())
+  if not cfg.only:
+    tc = table_cases(P)
+    rep.evaluations += len(P.of._message_type_to_class); rep.transitions += 2 * len(P.of._message_type_to_class)
+    for suffix, text in tc:
+      rep.violation("%s:%s" % (PID, suffix), text, dict(kind='<dispatch-tables>', v={}))
   rep.samples.sort(key=repr)
   rep.rule = ("E-enum over %d codec kinds (22 OpenFlow 1.0 message types, 13 action type codes + unknown-type action, 7+7 "
               "statistics bodies inside and outside ofp_stats_request/reply, ofp_phy_port, ofp_packet_queue, 3 queue "
@@ -1974,7 +2080,12 @@ def run (cfg):
               "member of >= 2 elements (actions, ports, queues, properties, stats bodies, learn specs, bundle slaves) "
               "is encoded, the list is changed in place keeping its length (reversed / element replaced / element's "
               "fields assigned; quick: one of the three per case by checksum, thorough: all + reverse-then-replace) "
-              "and encoded again: must equal a fresh object with the edited value. (9) wire-origin NXM: for every NXM "
+              "and encoded again: must equal a fresh object with the edited value. (10) every message case (22 types, Nicira messages as vendor messages) with wire version 1 is also "
+              "written to a real of_01.Connection (ScriptSock, recording handler table) and a real switch-side "
+              "OFConnection (RecocoIOWorker receive path): exactly one object must reach the handler, of the "
+              "right class, == the original, re-encoding to the same bytes, nothing left in the buffer; and every "
+              "type code of the registry must have its own class's decoder in make_type_to_unpacker_table() and in "
+              "of_01.unpackers. (9) wire-origin NXM: for every NXM "
               "class the reference encoder's wire forms {no mask, explicit all-ones mask, zero mask, partial masks} x "
               "values, alone, in nx_match lists, and inside NXT_FLOW_MOD / NXT_PACKET_IN: decode consumes exactly the "
               "bytes, len() agrees, re-encode gives the same bytes. distinct = (kind, verdict, length, 8-bit checksum) "
@@ -1998,6 +2109,9 @@ def run (cfg):
 
 def replay (cfg, data):
   P = pox()
+  if data["kind"] == '<dispatch-tables>':
+    tc = table_cases(P)
+    return bool(tc), "\n".join("FAIL %s:%s -- %s" % (PID, k, t) for k, t in tc) or "every registered type code has its decoder in every dispatch table"
   K = KINDS[data["kind"]]
   V = run_case(P, K, data["v"], data.get("state", True))
   lines = ["kind: %s" % K.name, "vector: %r" % (data["v"],)]
